@@ -146,7 +146,8 @@ pub fn content_type() -> BoxedStrategy<String> {
 pub fn location(idx: usize) -> BoxedStrategy<String> {
     prop_oneof![
         4 => "[a-z0-9_]{1,8}".prop_map(move |s| format!("file:///o{}/{}", idx, s)),
-        2 => "[a-zA-Z0-9 &'=+,;~!$()*-]{1,16}".prop_map(move |s| format!("file:///o{}/{}", idx, s)),
+        // no leading/trailing blank: Url::parse trims them and the name would become a directory
+        2 => "[a-zA-Z0-9&'=+,;~!$()*-][a-zA-Z0-9 &'=+,;~!$()*-]{0,14}[a-zA-Z0-9&'=+,;~!$()*-]".prop_map(move |s| format!("file:///o{}/{}", idx, s)),
         2 => "[a-z0-9]{1,6}".prop_map(move |s| format!("http://example.com/o{}/{}?q=1&r=<2>", idx, s)),
         1 => "[a-zé日ü]{1,6}".prop_map(move |s| format!("https://h.example/o{}/d/{}.bin", idx, s)),
     ]
@@ -155,11 +156,11 @@ pub fn location(idx: usize) -> BoxedStrategy<String> {
 
 pub fn cache_spec() -> BoxedStrategy<Option<CacheSpec>> {
     prop_oneof![
-        4 => Just(None),
+        8 => Just(None),
         1 => Just(Some(CacheSpec::NoCache)),
-        2 => Just(Some(CacheSpec::MaxStale)),
-        2 => (1u64..1_000_000).prop_map(|s| Some(CacheSpec::ExpiresSecs(s))),
-        2 => (-1000i64..10_000_000).prop_map(|s| Some(CacheSpec::ExpiresAtOffsetSecs(s))),
+        4 => Just(Some(CacheSpec::MaxStale)),
+        4 => (1u64..1_000_000).prop_map(|s| Some(CacheSpec::ExpiresSecs(s))),
+        4 => (-1000i64..10_000_000).prop_map(|s| Some(CacheSpec::ExpiresAtOffsetSecs(s))),
     ]
     .boxed()
 }
@@ -234,7 +235,7 @@ pub fn obj_strategy(idx: usize, session_oti: OtiSpec, o: ObjOpts) -> BoxedStrate
         cenc_s,
         any::<bool>(),
         any::<bool>(),
-        1u32..=max_transfers,
+        prop_oneof![6 => Just(1u32), 2 => Just(2u32.min(max_transfers)), 1 => 1u32..=max_transfers],
         meta,
         source_spec(allow_stream),
         any::<bool>(),
